@@ -161,8 +161,10 @@ def run(chk):
 
 
 def raire_reader_facts(fn):
-    """Facts about CVR.from_raire on its canonical form, for the loop-store and the dict-comprehension spellings alike:
-    skip name/ok, row variable, (start column, rank expression as sympy in j), vote-dict expression, from_vote kwargs, list name."""
+    """Facts about CVR.from_raire on its canonical form.  The canonical form turns filter/append and store loops into
+    comprehensions, so a reader written with loops usually arrives here as nested comprehensions; a reader whose loops do more
+    than build the list (logging, say) stays in loop form.  Both are read: the *row scope* is the loop or the comprehension that
+    ranges over the rows of `raire`."""
     from ..canon import inline_aliases
     f = inline_aliases(fn)
     out = {"fn": f}
@@ -171,59 +173,64 @@ def raire_reader_facts(fn):
         if isinstance(st, ast.Assign) and isinstance(st.targets[0], ast.Name):
             env[st.targets[0].id] = st.value
     out["env"] = env
-    loops = [l for l in f.body if isinstance(l, ast.For)]
-    if len(loops) != 1:
+    scopes = []
+    for n in ast.walk(f):
+        if isinstance(n, ast.For) and isinstance(n.iter, ast.Subscript) and norm(n.iter.value) == "raire":
+            scopes.append((n, n.target, n.iter, list(n.body)))
+        if isinstance(n, ast.ListComp) and len(n.generators) == 1 and isinstance(n.generators[0].iter, ast.Subscript) \
+                and norm(n.generators[0].iter.value) == "raire" and not n.generators[0].ifs:
+            scopes.append((n, n.generators[0].target, n.generators[0].iter, [n.elt]))
+    if len(scopes) != 1:
         return out
-    l = loops[0]
+    l, tgt, it, inner_nodes = scopes[0]
     out["loop"] = l
-    it = l.iter
-    if isinstance(it, ast.Subscript) and norm(it.value) == "raire" and isinstance(it.slice, ast.Slice) and it.slice.upper is None \
-            and it.slice.step is None and it.slice.lower is not None:
-        # skip may have been inlined (int(raire[0][0]) + 1) or kept as a name
-        lo_txt = norm(it.slice.lower)
-        names = [n.id for n in ast.walk(it.slice.lower) if isinstance(n, ast.Name) and n.id != "raire" and n.id != "int"]
+    if isinstance(it.slice, ast.Slice) and it.slice.upper is None and it.slice.step is None and it.slice.lower is not None:
+        names = [n.id for n in ast.walk(it.slice.lower) if isinstance(n, ast.Name) and n.id not in ("raire", "int")]
         if names and names[0] in env:
             sk = names[0]
             lo = Tx(env={sk: E(S("skip"))}).expr(it.slice.lower)
             out["iter_ok"] = isinstance(lo, E) and is_zero(lo.e - (S("skip") + 1))
             out["skip_ok"] = norm(env[sk]) == "int(raire[0][0])"
-            out["skip_name"] = sk
         else:
             lo = Tx().expr(it.slice.lower)
             want = Tx().expr(ast.parse("int(raire[0][0]) + 1", mode="eval").body)
             out["iter_ok"] = out["skip_ok"] = symx.equivalent(lo, want)[0]
-    row = norm(l.target)
+    row = norm(tgt)
     out["row"] = row
-    # the rank assignment: loop-store form or dict comprehension
+    inside = [n for x in inner_nodes for n in ast.walk(x)]
     rank = None
-    inner = [x for x in l.body if isinstance(x, ast.For)]
+    inner = [x for x in inside if isinstance(x, ast.For)]
     if len(inner) == 1 and isinstance(inner[0].iter, ast.Call) and norm(inner[0].iter.func) == "range" and len(inner[0].iter.args) == 2:
-        j = norm(inner[0].target)
         sts = [(t, v, s0) for t, v, s0 in stores(inner[0])]
         if len(sts) == 1 and isinstance(sts[0][0], ast.Subscript) and isinstance(sts[0][0].value, ast.Name):
             t, v, s0 = sts[0]
-            rank = dict(j=j, start=inner[0].iter.args[0], stop=norm(inner[0].iter.args[1]), key=norm(t.slice), value=v, votes=t.value.id, fresh=None)
-            loc = {norm(a.targets[0]): norm(a.value) for a in l.body if isinstance(a, ast.Assign) and isinstance(a.targets[0], ast.Name)}
+            rank = dict(j=norm(inner[0].target), start=inner[0].iter.args[0], stop=norm(inner[0].iter.args[1]), key=norm(t.slice), value=v,
+                        votes=t.value.id, fresh=None)
+            loc = {norm(a.targets[0]): norm(a.value) for a in inside if isinstance(a, ast.Assign) and isinstance(a.targets[0], ast.Name)}
             rank["fresh"] = loc.get(t.value.id) == "{}"
-    for dc in [x for x in ast.walk(l) if isinstance(x, ast.DictComp)]:
+    for dc in [x for x in inside if isinstance(x, ast.DictComp)]:
         if len(dc.generators) == 1 and not dc.generators[0].ifs and isinstance(dc.generators[0].iter, ast.Call) \
                 and norm(dc.generators[0].iter.func) == "range" and len(dc.generators[0].iter.args) == 2:
             g = dc.generators[0]
-            holder = [a for a in l.body if isinstance(a, ast.Assign) and a.value is dc and isinstance(a.targets[0], ast.Name)]
+            holder = [a for a in inside if isinstance(a, ast.Assign) and a.value is dc and isinstance(a.targets[0], ast.Name)]
             rank = dict(j=norm(g.target), start=g.iter.args[0], stop=norm(g.iter.args[1]), key=norm(dc.key), value=dc.value,
                         votes=holder[0].targets[0].id if holder else norm(dc), fresh=True)
     out["rank"] = rank
-    calls = [c for c in ast.walk(l) if isinstance(c, ast.Call) and norm(c.func) in ("CVR.from_vote", "cls.from_vote")]
+    calls = [c for c in inside if isinstance(c, ast.Call) and norm(c.func) in ("CVR.from_vote", "cls.from_vote")]
     out["from_vote"] = calls[0] if len(calls) == 1 else None
-    # the list the records are collected in: the receiver of .append(<from_vote call or a name bound to it>)
+    # what is handed to merge_cvrs: the comprehension itself, or the list the loop appends the records to
     lst = None
-    if out["from_vote"] is not None:
-        fv = out["from_vote"]
-        holders = [norm(a.targets[0]) for a in l.body if isinstance(a, ast.Assign) and a.value is fv]
-        for c in ast.walk(l):
-            if isinstance(c, ast.Call) and isinstance(c.func, ast.Attribute) and c.func.attr == "append" and len(c.args) == 1:
-                if c.args[0] is fv or norm(c.args[0]) in holders:
-                    lst = norm(c.func.value)
+    fv = out["from_vote"]
+    if fv is not None:
+        if isinstance(l, ast.ListComp):
+            if l.elt is fv:
+                lst = l
+        else:
+            holders = [norm(a.targets[0]) for a in inside if isinstance(a, ast.Assign) and a.value is fv]
+            for c in inside:
+                if isinstance(c, ast.Call) and isinstance(c.func, ast.Attribute) and c.func.attr == "append" and len(c.args) == 1:
+                    if c.args[0] is fv or norm(c.args[0]) in holders:
+                        lst = norm(c.func.value)
     out["list"] = lst
     return out
 
@@ -263,10 +270,16 @@ def r5(chk):
     ok = False
     if len(rets) == 1 and isinstance(rets[0].value, ast.Tuple) and LST is not None:
         first = rets[0].value.elts[0]
-        txt = norm(first)
         if isinstance(first, ast.Name) and first.id in env:
-            txt = norm(env[first.id])
-        ok = txt in (f"CVR.merge_cvrs({LST})", f"cls.merge_cvrs({LST})") and LST in env and norm(env[LST]) == "[]"
+            first = env[first.id]
+        if isinstance(first, ast.Call) and norm(first.func) in ("CVR.merge_cvrs", "cls.merge_cvrs") and len(first.args) == 1 and not first.keywords:
+            arg = first.args[0]
+            if isinstance(arg, ast.Name) and arg.id in env and isinstance(env[arg.id], ast.ListComp):
+                arg = env[arg.id]
+            if isinstance(LST, str):
+                ok = norm(arg) == LST and LST in env and norm(env[LST]) == "[]"
+            else:
+                ok = arg is LST
     chk.ob("C18.R5", where, "returns-merged", ok, "the reader returns the merged list (one record per card id)", node=rets[0] if rets else fn)
     ff = chk.fn(REL, "CVR.from_raire_file")
     calls = [c for c in ast.walk(ff) if isinstance(c, ast.Call) and norm(c.func) in ("CVR.from_raire", "cls.from_raire")]
